@@ -48,7 +48,8 @@ Lin(c) == /\ pend[c].st = "called"
                /\ LET r == Apply(e, cur, p, a, b) IN
                   /\ reg' = [reg EXCEPT ![e.k] = r.reg]
                   /\ pend' = [pend EXCEPT ![c] = [st |-> "done", e |-> e, ret |-> r.ret, v |-> r.v, n |-> r.n,
-                                                  lo |-> r.reg.lo, hi |-> r.reg.hi]]
+                                                  \* deadline of the entry the operation observed
+                                                  lo |-> cur.lo, hi |-> cur.hi]]
           /\ UNCHANGED <<i, tprev>>
 
 \* a failed Lock keeps retrying until its deadline: it must not give up earlier (C08)
@@ -63,6 +64,8 @@ Res == /\ i <= Len(Trace) /\ Trace[i].t = "res"
           /\ \/ /\ p.st = "done" /\ p.ret = e.ret
                 /\ (e.ret = "num" => p.n = e.n)
                 /\ (e.ret = "val" => p.v = e.v)
+                \* a Delete answers with the number of keys it named (C15)
+                /\ ((p.e.op = "del" /\ "nkeys" \in DOMAIN p.e) => e.n = p.e.nkeys)
                 /\ LockTimingOK(p.e, e)
                 /\ TTLReportOK(p, e)
              \* indeterminate outcome: applied or not, both admitted
